@@ -38,7 +38,7 @@ Record dcase17 := DCase17 {
 Definition dpark (ctxf : bool) (k : dl) : bool :=
   match k with
   | KHand _ _ _ _ => true
-  | KDelH _ _ _ _ | KDelI _ _ _ _ => negb ctxf
+  | KDelI _ _ _ _ => negb ctxf        (* the commit of the two deletes of one height *)
   | KCommit wb => ctxf && negb (match wb with [] => true | _ => false end)
   | KPutT _ | KPutH _ => true
   | _ => false
